@@ -1235,9 +1235,10 @@ fn section_kb(w: &mut W, rng: &mut Rng, thorough: bool) {
         let b = Ctx::new(true);
         b.set_str(KB_OPT.as_bytes(), KB_NAMES[kb as usize].as_bytes());
         let n = if thorough { 20000 } else { 600 };
-        for _ in 0..n {
+        let fixed: [&[u8]; 6] = [b"hdk", b"su3cl3", b"ji3", b"zp ", b"cen ", b"a;4"];
+        for i in 0..n + fixed.len() {
             let len = if thorough { rng.range(2, 4) } else { rng.range(2, 3) } as usize;
-            let seq: Vec<u8> = (0..len).map(|_| *rng.pick(&keys)).collect();
+            let seq: Vec<u8> = if i < fixed.len() { fixed[i].to_vec() } else { (0..len).map(|_| *rng.pick(&keys)).collect() };
             for c in [&a, &b] {
                 c.reset();
                 unsafe { chewing_clean_bopomofo_buf(c.0) };
